@@ -37,7 +37,10 @@ import (
 	"strings"
 
 	"golang.org/x/tools/go/ssa"
+	"golang.org/x/tools/go/ssa/ssautil"
 )
+
+func ssautilAllFunctions(p *ssa.Program) map[*ssa.Function]bool { return ssautil.AllFunctions(p) }
 
 const (
 	mSame  uint8 = iota // the value stored at that location itself
@@ -986,8 +989,27 @@ func (vi *vinterp) eval(fn *ssa.Function, args []*aval, bind []*aval, depth int)
 		vi.fnres[fn] = newAval()
 	}
 
-	if vi.stack[fn] || depth > 14 {
-		return vi.fnres[fn]
+	if vi.stack[fn] {
+		return vi.fnres[fn] // recursion: the result accumulated so far (the outer rounds iterate to a fixpoint)
+	}
+
+	if depth > 14 {
+		// too deep to follow: like an unknown callee, the result may be anything built from the arguments
+		r := freshAval()
+		fr := &vframe{vi: vi, fn: fn}
+		all := map[vorigin]bool{}
+
+		for _, a := range append(append([]*aval{}, args...), bind...) {
+			fr.rootOrigins(a, all, map[*vobj]bool{}, 0)
+		}
+
+		for o := range all {
+			if o.root == 0 {
+				r.join(&aval{orig: map[vorigin]bool{{o.root, o.path, false, mAlias}: true}})
+			}
+		}
+
+		return r
 	}
 
 	var sb strings.Builder
@@ -1403,6 +1425,79 @@ func (rt *rtset) argMayHitNoExt(t types.Type, seen map[string]bool, depth int) b
 	}
 }
 
+// everSet: the fields of module structs that some module code may set: a FieldAddr that is used for anything but a
+// load (a store, a call argument, …).  Exported or tagged fields may also be set through reflection (mapstructure).
+func (a *analyzer) everSet() map[string]bool {
+	if a.fieldSet != nil {
+		return a.fieldSet
+	}
+
+	a.fieldSet = map[string]bool{}
+
+	for fn := range ssautilAllFunctions(a.prog) {
+		if fn.Blocks == nil || !inModule(fn) {
+			continue
+		}
+
+		for _, b := range fn.Blocks {
+			for _, ins := range b.Instrs {
+				fa, ok := ins.(*ssa.FieldAddr)
+				if !ok {
+					continue
+				}
+
+				pt, ok := fa.X.Type().Underlying().(*types.Pointer)
+				if !ok {
+					continue
+				}
+
+				st, ok := pt.Elem().Underlying().(*types.Struct)
+				if !ok {
+					continue
+				}
+
+				onlyLoads := true
+
+				for _, r := range *fa.Referrers() {
+					if u, isLoad := r.(*ssa.UnOp); isLoad && u.Op == token.MUL {
+						continue
+					}
+
+					if _, isDbg := r.(*ssa.DebugRef); isDbg {
+						continue
+					}
+
+					onlyLoads = false
+				}
+
+				if !onlyLoads {
+					a.fieldSet[canon(pt.Elem())+"#"+st.Field(fa.Field).Name()] = true
+				}
+			}
+		}
+	}
+
+	return a.fieldSet
+}
+
+// neverSet: field f of struct type holder is zero in every instance (unexported, untagged, no module code sets it).
+func (a *analyzer) neverSet(l vleaf) bool {
+	st, ok := l.holder.Underlying().(*types.Struct)
+	if !ok {
+		return false
+	}
+
+	for i := 0; i < st.NumFields(); i++ {
+		if st.Field(i).Name() == l.field {
+			if st.Field(i).Exported() || st.Tag(i) != "" || st.Field(i).Embedded() {
+				return false
+			}
+		}
+	}
+
+	return !a.everSet()[canon(l.holder)+"#"+l.field]
+}
+
 // variantRow: analyse WithConfig of mechanism type t (row is the effect row of the same type).
 func (a *analyzer) variantRow(t types.Type, row Row, trace bool) VRow {
 	vr := VRow{Pkg: row.Pkg, Type: row.Type, Fields: []VField{}, RecvWrites: []VWrite{}, Bad: []string{}}
@@ -1488,6 +1583,12 @@ func (a *analyzer) variantRow(t types.Type, row Row, trace bool) VRow {
 			}
 
 			f.Srcs = vi.classify(fr, leaves, k, v)
+
+			if len(f.Srcs) == 1 && f.Srcs[0].Kind == "Zero" && a.neverSet(lf) {
+				// no code of the module ever sets this field: it is the zero value in the receiver too, so leaving it
+				// zero is copying it
+				f.Srcs[0] = VSrc{Kind: "RecvCopy", P: k, From: lf.name, How: "never set by any code of the module: zero in every instance, in the receiver too"}
+			}
 		}
 
 		vr.Fields = append(vr.Fields, f)
